@@ -304,3 +304,296 @@ func normaliseSignatures(pkgs []*packages.Package, src func(string) []byte) (map
 	}
 	return out, notes
 }
+
+// synthFlagSplit undoes "remove flag argument": a reviewed function F(.., flag bool, ..) that is gone while exactly
+// two new unexported functions of the same package and receiver have F's signature without the flag.  F is
+// re-created in the overlay as `if flag { return G1(..) }; return G2(..)` and the call sites of G1 / G2 are
+// rewritten to F(.., true|false, ..); the inliner then puts the bodies of G1 and G2 back into F.  Which of the two
+// is the `true` variant is read from the names (flag `isAdd`: the function whose name contains `add`); without an
+// unambiguous answer nothing is done.
+func synthFlagSplit(pkgs []*packages.Package, src func(string) []byte) (map[string][]byte, []string) {
+	type edit struct {
+		a, e int
+		text string
+	}
+	edits := map[string][]edit{}
+	appendix := map[string]string{}
+	var notes []string
+	for _, p := range pkgs {
+		if !smPkgs[p.PkgPath] || p.TypesInfo == nil {
+			continue
+		}
+		info := p.TypesInfo
+		current := map[string]bool{}
+		type declInfo struct {
+			fd    *ast.FuncDecl
+			fname string
+			key   string
+			sig   []string // type keys, receiver first
+		}
+		var added []declInfo
+		for i, f := range p.Syntax {
+			if i >= len(p.CompiledGoFiles) {
+				continue
+			}
+			fname := p.CompiledGoFiles[i]
+			if strings.HasSuffix(fname, ".pb.go") || strings.HasSuffix(fname, ".pb.gw.go") {
+				continue
+			}
+			for _, d := range f.Decls {
+				fd, ok := d.(*ast.FuncDecl)
+				if !ok || fd.Body == nil {
+					continue
+				}
+				k := declKey(p.PkgPath, fd)
+				current[k] = true
+				if baselineFuncs[k] || ast.IsExported(fd.Name.Name) || fd.Type.TypeParams != nil {
+					continue
+				}
+				obj, _ := info.Defs[fd.Name].(*types.Func)
+				if obj == nil {
+					continue
+				}
+				sg := obj.Type().(*types.Signature)
+				if sg.Variadic() {
+					continue
+				}
+				var parts []string
+				if sg.Recv() != nil {
+					parts = append(parts, typeKey(sg.Recv().Type())+ptrMark(sg.Recv().Type()))
+				}
+				for j := 0; j < sg.Params().Len(); j++ {
+					t := sg.Params().At(j).Type()
+					parts = append(parts, typeKey(t)+ptrMark(t))
+				}
+				added = append(added, declInfo{fd, fname, k, parts})
+			}
+		}
+		prefixOf := func(k string) string { return k[:strings.LastIndex(k, ".")+1] }
+		for kb := range baselineFuncs {
+			if current[kb] || !strings.HasPrefix(kb, alias(p.PkgPath)+".") {
+				continue
+			}
+			base, ok := baselineParams[kb]
+			if !ok {
+				continue
+			}
+			flag := -1
+			for i, b := range base {
+				if b[1] == "bool" {
+					if flag >= 0 {
+						flag = -2
+						break
+					}
+					flag = i
+				}
+			}
+			if flag < 0 {
+				continue
+			}
+			var want []string
+			for i, b := range base {
+				if i != flag {
+					want = append(want, b[1])
+				}
+			}
+			var cands []declInfo
+			for _, a := range added {
+				if prefixOf(a.key) == prefixOf(kb) && strings.Join(a.sig, "|") == strings.Join(want, "|") {
+					cands = append(cands, a)
+				}
+			}
+			if len(cands) != 2 {
+				continue
+			}
+			// polarity from the names
+			stem := strings.ToLower(base[flag][0])
+			for _, pre := range []string{"is", "should", "do", "with"} {
+				if strings.HasPrefix(stem, pre) && len(stem) > len(pre) {
+					stem = stem[len(pre):]
+					break
+				}
+			}
+			has0 := strings.Contains(strings.ToLower(cands[0].fd.Name.Name), stem)
+			has1 := strings.Contains(strings.ToLower(cands[1].fd.Name.Name), stem)
+			if has0 == has1 {
+				notes = append(notes, kb+": looks split by its flag into "+cands[0].key+" and "+cands[1].key+" but the names do not tell which is which")
+				continue
+			}
+			gTrue, gFalse := cands[0], cands[1]
+			if has1 {
+				gTrue, gFalse = cands[1], cands[0]
+			}
+			isMethod := strings.Count(kb, ".") >= 2
+			if isMethod != (gTrue.fd.Recv != nil) || isMethod != (gFalse.fd.Recv != nil) {
+				continue
+			}
+			// the synthesised declaration, with the reviewed parameter names and the type texts of the true variant
+			csrc := src(gTrue.fname)
+			if csrc == nil {
+				continue
+			}
+			text := func(n ast.Node) string {
+				return string(csrc[p.Fset.Position(n.Pos()).Offset:p.Fset.Position(n.End()).Offset])
+			}
+			var ttexts []string
+			okDecl := true
+			collect := func(fl *ast.FieldList) {
+				if fl == nil {
+					return
+				}
+				for _, f := range fl.List {
+					n := len(f.Names)
+					if n == 0 {
+						n = 1
+					}
+					for j := 0; j < n; j++ {
+						ttexts = append(ttexts, text(f.Type))
+					}
+				}
+			}
+			collect(gTrue.fd.Recv)
+			collect(gTrue.fd.Type.Params)
+			if len(ttexts) != len(want) {
+				okDecl = false
+			}
+			if !okDecl {
+				continue
+			}
+			var hb bytes.Buffer
+			name := kb[strings.LastIndex(kb, ".")+1:]
+			hb.WriteString("\n\nfunc ")
+			var callArgs []string
+			ti := 0
+			recvName := ""
+			for i, b := range base {
+				tt := "bool"
+				if i != flag {
+					tt = ttexts[ti]
+					ti++
+				}
+				if isMethod && i == 0 {
+					fmt.Fprintf(&hb, "(%s %s) %s(", b[0], tt, name)
+					recvName = b[0]
+					continue
+				}
+				if (isMethod && i > 1) || (!isMethod && i > 0) {
+					hb.WriteString(", ")
+				}
+				if !isMethod && i == 0 {
+					hb.WriteString(name + "(")
+				}
+				fmt.Fprintf(&hb, "%s %s", b[0], tt)
+				if i != flag {
+					callArgs = append(callArgs, b[0])
+				}
+			}
+			hb.WriteString(")")
+			res := ""
+			nres := 0
+			if gTrue.fd.Type.Results != nil {
+				res = " " + text(gTrue.fd.Type.Results)
+				nres = gTrue.fd.Type.Results.NumFields()
+			}
+			hb.WriteString(res + " {\n")
+			call := func(g declInfo) string {
+				c := g.fd.Name.Name + "(" + strings.Join(callArgs, ", ") + ")"
+				if isMethod {
+					c = recvName + "." + c
+				}
+				return c
+			}
+			if nres > 0 {
+				fmt.Fprintf(&hb, "if %s {\nreturn %s\n}\nreturn %s\n}\n", base[flag][0], call(gTrue), call(gFalse))
+			} else {
+				fmt.Fprintf(&hb, "if %s {\n%s\nreturn\n}\n%s\n}\n", base[flag][0], call(gTrue), call(gFalse))
+			}
+			// call sites of the two variants
+			okSites := true
+			nSites := 0
+			for _, g := range []struct {
+				d   declInfo
+				lit string
+			}{{gTrue, "true"}, {gFalse, "false"}} {
+				obj := info.Defs[g.d.fd.Name]
+				for i, f := range p.Syntax {
+					if i >= len(p.CompiledGoFiles) {
+						continue
+					}
+					fname := p.CompiledGoFiles[i]
+					ssrc := src(fname)
+					called := map[*ast.Ident]*ast.CallExpr{}
+					ast.Inspect(f, func(nd ast.Node) bool {
+						if c, ok := nd.(*ast.CallExpr); ok {
+							switch fx := ast.Unparen(c.Fun).(type) {
+							case *ast.Ident:
+								called[fx] = c
+							case *ast.SelectorExpr:
+								called[fx.Sel] = c
+							}
+						}
+						return true
+					})
+					ast.Inspect(f, func(nd ast.Node) bool {
+						id, ok := nd.(*ast.Ident)
+						if !ok || info.Uses[id] != obj {
+							return true
+						}
+						c := called[id]
+						if c == nil || ssrc == nil || c.Ellipsis.IsValid() {
+							okSites = false
+							return true
+						}
+						nSites++
+						// rename the callee and insert the flag literal at its position among the explicit arguments
+						edits[fname] = append(edits[fname], edit{p.Fset.Position(id.Pos()).Offset, p.Fset.Position(id.End()).Offset, name})
+						argPos := flag
+						if isMethod {
+							argPos--
+						}
+						switch {
+						case len(c.Args) == 0:
+							edits[fname] = append(edits[fname], edit{p.Fset.Position(c.Rparen).Offset, p.Fset.Position(c.Rparen).Offset, g.lit})
+						case argPos >= len(c.Args):
+							o := p.Fset.Position(c.Args[len(c.Args)-1].End()).Offset
+							edits[fname] = append(edits[fname], edit{o, o, ", " + g.lit})
+						default:
+							o := p.Fset.Position(c.Args[argPos].Pos()).Offset
+							edits[fname] = append(edits[fname], edit{o, o, g.lit + ", "})
+						}
+						return true
+					})
+				}
+			}
+			if !okSites {
+				notes = append(notes, kb+": split by its flag, but a variant is used other than in a plain call")
+				return nil, notes
+			}
+			appendix[gTrue.fname] += hb.String()
+			notes = append(notes, fmt.Sprintf("%s: re-created from its flag variants %s (true) and %s (false), %d call sites rewritten", kb, gTrue.key, gFalse.key, nSites))
+		}
+	}
+	if len(edits) == 0 && len(appendix) == 0 {
+		return nil, notes
+	}
+	out := map[string][]byte{}
+	files := map[string]bool{}
+	for f := range edits {
+		files[f] = true
+	}
+	for f := range appendix {
+		files[f] = true
+	}
+	for fname := range files {
+		b := src(fname)
+		es := edits[fname]
+		sort.SliceStable(es, func(i, j int) bool { return es[i].a > es[j].a })
+		nb := append([]byte{}, b...)
+		for _, e := range es {
+			nb = append(append(append([]byte{}, nb[:e.a]...), []byte(e.text)...), nb[e.e:]...)
+		}
+		nb = append(nb, []byte(appendix[fname])...)
+		out[fname] = nb
+	}
+	return out, notes
+}
